@@ -24,7 +24,12 @@ type c11state struct {
 	model []uint32
 }
 
-func c11Apply(st *c11state, i int, s Step, idx int, observe bool) *Viol {
+func c11Apply(st *c11state, i int, s Step, idx int, observe bool) (viol *Viol) {
+	defer func() {
+		if p := recover(); p != nil {
+			viol = &Viol{Key: "C11:" + s.Op + "/panic", Step: idx, Inst: s.Inst, Detail: fmt.Sprintf("%s panicked: %v", s, p)}
+		}
+	}()
 	c := &st.real[s.Inst]
 	m := &st.model[s.Inst]
 	before := *m
